@@ -15,14 +15,14 @@ SHARDS = {"quick": 8, "thorough": 16}
 TECHNIQUE = "Hypothesis: invalid-leaning inputs of the C01/C07/C08 generators through every entry point; invariants " \
             "over each issue, differential warnings-on/off, reference sort"
 LEVEL_TEXT = ("Issues from string validation (default handler and a handler carrying the HED-string context), sidecar "
-              "validation, table validation and (in C16) dataset validation are checked one by one: fields and "
+              "validation, table validation and dataset validation are checked one by one: fields and "
               "severity; offsets inside the validated text and selecting exactly the tag fragment the issue names; "
               "location suffix once (also when the same object is validated repeatedly); errors-only == ERROR subset "
               "of warnings-on; sort_issues == Python's stable sort on the documented key; JSON-serialisable after "
               "reference replacement with codes unchanged.")
 LEVEL_NOTE = "trusted: the invariants below; the generators of C01/C07/C08 for input shapes"
 RULE = ("parts: 'string' (valid and single-fault annotations), 'sidecar' (valid, faulty and definition-carrying "
-        "sidecars, each object validated twice), 'table' (C07 tables incl. rows with >=3 HED cells), 'sort' (synthetic "
+        "sidecars, each object validated twice), 'table' (C07 tables incl. rows with >=3 HED cells), 'dataset' (C16 directory trees), 'sort' (synthetic "
         "issue lists with generated context fields). Non-trivial = >=2 issues with one carrying offsets (sort: >=2 "
         "issues sharing a sort key prefix).")
 ASSUMPTIONS = ["'the fragment quoted in the message' is checked as: the selected text equals the slice of the named "
@@ -282,6 +282,42 @@ def oracle_table(case):
     return out
 
 
+def dataset_strategy():
+    from checks import c16_bids
+    return c16_bids.tree()
+
+
+def oracle_dataset(case):
+    import shutil
+    from checks import c16_bids
+    from hed.tools.bids.bids_dataset import BidsDataset
+    out = Outcome()
+    root = c16_bids.write_tree(case["files"])
+    try:
+        res = {}
+        try:
+            for w in (True, False):
+                res[w] = BidsDataset(root).validate(check_for_warnings=w)
+        except Exception as exc:  # noqa
+            from vlib.core import crash_signature
+            return out.bad(crash_signature(exc, "dataset-validate-raises") or "dataset-validate-raises", repr(exc))
+        n_off = 0
+        for name, issues in (("dataset", res[True]), ("dataset-errors-only", res[False])):
+            if not check_issue_fields(issues, out, name):
+                return out
+            n_off += check_offsets(issues, out, name)
+            check_serialisable(issues, out, name)
+        a = Counter(key_of(i) + (i.get("ec_filename"),) for i in res[True] if i["severity"] == 1)
+        b = Counter(key_of(i) + (i.get("ec_filename"),) for i in res[False])
+        if a != b or any(i["severity"] != 1 for i in res[False]):
+            out.bad("errors-only-differs-from-error-subset:dataset", str(sorted((a - b) | (b - a), key=repr)[:3]))
+        out.nontrivial = len(res[True]) >= 2 and n_off > 0
+        out.classes = ("dataset",)
+    finally:
+        shutil.rmtree(root, ignore_errors=True)
+    return out
+
+
 # ------------------------------------------------------------------------------------------------------------
 SORT_KEYS = ["ec_title", "ec_filename", "ec_sidecarColumnName", "ec_sidecarKeyName", "ec_row", "ec_column", "ec_line",
              "ec_section", "ec_schema_tag", "ec_attribute"]
@@ -336,4 +372,5 @@ def parts(tier):
     return [Part("string", oracle_string, strategy=string_strategy(), n=1200 if q else 48000),
             Part("sidecar", oracle_sidecar, strategy=sidecar_strategy(), n=400 if q else 16000),
             Part("table", oracle_table, strategy=table_strategy(), n=300 if q else 12000),
+            Part("dataset", oracle_dataset, strategy=dataset_strategy(), n=40 if q else 1600),
             Part("sort", oracle_sort, strategy=issue_strategy, n=1500 if q else 48000)]
